@@ -38,7 +38,7 @@ fn strategy(t: Tier) -> BoxedStrategy<Case> {
     let len = prop_oneof![2 => 0u16..3, 4 => 3u16..60, 2 => 60u16..400];
     let item = prop_oneof![
         5 => (lab_any_valid(), len.clone(), prop_oneof![4 => Just(0u8), 2 => Just(1u8), 2 => Just(2u8), 1 => Just(3u8), 1 => Just(4u8)]).prop_map(|(lab, len, kind)| Item::Complete { lab, len, kind }),
-        3 => (0u8..6, lab_any_valid(), 4u16..400, 0u8..40, any::<bool>()).prop_map(|(id, lab, len, first_payload, ext)| Item::Start { id, lab, len, first_payload, ext }),
+        3 => (0u8..6, lab_any_valid(), prop_oneof![1 => Just(0u16), 2 => 4u16..400], 0u8..40, any::<bool>()).prop_map(|(id, lab, len, first_payload, ext)| Item::Start { id, lab, len, first_payload, ext }),
         5 => (any::<u16>(), prop_oneof![2 => 0u16..30, 1 => 30u16..500], prop_oneof![6 => Just(false), 1 => Just(true)]).prop_map(|(k, n, corrupt)| Item::Cont { k, n, corrupt }),
         1 => (0u8..6, any::<bool>()).prop_map(|(id, end)| Item::Orphan { id, end }),
     ];
@@ -128,9 +128,10 @@ fn check(c: &Case, st: &mut Stats) -> Result<(), String> {
             }
             Item::Start { id, lab, len, first_payload, ext } => {
                 let pdu = pdu_bytes((*len as usize).max(*first_payload as usize + 4), 22 + *id as u32);
-                let mut b = vec![0u8; 7 + lab.len() + if *ext { 4 } else { 0 } + *first_payload as usize];
+                // extension area: 8 + 2 + 4 + 2 = 16 bytes, so that it can exceed what remains of the PDU
+                let mut b = vec![0u8; 7 + lab.len() + if *ext { 16 } else { 0 } + *first_payload as usize];
                 let r = if *ext {
-                    call_encap_ext(&mut enc, &pdu, *id, 0x0800, *lab, &mut b, vec![ExtSpec { id: 0x0207, data: vec![7, 7] }.build()?])
+                    call_encap_ext(&mut enc, &pdu, *id, 0x0800, *lab, &mut b, vec![ExtSpec { id: 0x0507, data: vec![7; 8] }.build()?, ExtSpec { id: 0x0301, data: vec![1, 2, 3, 4] }.build()?])
                 } else {
                     call_encap(&mut enc, &pdu, *id, 0x0800, *lab, &mut b)
                 };
